@@ -57,6 +57,9 @@ ALIASES = {"_tools.encrypt_tdes_ecb": "tools.encrypt_tdes_ecb", "_tools.encrypt_
 # `int` parameter is a size or a count and is modelled as `Nat`
 INT_PARAMS = {("mac", "mac_iso9797_3", "padding")}
 
+# set while `tools.xor` is translated a second time as a host with `sys.byteorder == "big"` evaluates it
+BIG_ENDIAN_HOST = [False]
+
 
 class Unsupported(Exception):
     pass
@@ -291,7 +294,7 @@ class Fn:
             if ka == "B" and order in ("'big'", '"big"'):
                 return f"(fromBE {a})", "N"
             if ka == "B" and order == "_sys.byteorder":
-                return f"(fromLE {a})", "N"
+                return (f"(fromBE {a})" if BIG_ENDIAN_HOST[0] else f"(fromLE {a})"), "N"
             raise Unsupported("from_bytes " + ast.unparse(e))
         if isinstance(f, ast.Attribute) and f.attr == "to_bytes":
             if fs == "int.to_bytes":
@@ -303,7 +306,7 @@ class Fn:
             if order in ("'big'", '"big"') or (order == "_sys.byteorder" and const_int(e.args[0] if fs != "int.to_bytes" else e.args[1]) == 1):
                 return self.bind(f"toBytesBE {k} {n}", "B", out, ind)
             if order == "_sys.byteorder":
-                return self.bind(f"toBytesLE {k} {n}", "B", out, ind)
+                return self.bind(f"toBytesBE {k} {n}" if BIG_ENDIAN_HOST[0] else f"toBytesLE {k} {n}", "B", out, ind)
             raise Unsupported("to_bytes " + ast.unparse(e))
         if isinstance(f, ast.Attribute) and f.attr == "decode" and ast.unparse(e.args[0]) in ("'ascii'", '"ascii"'):
             raise Unsupported("decode outside the isinstance pattern")
@@ -982,6 +985,14 @@ def translate(repo):
                 if mod_problem:
                     raise Unsupported(mod_problem)
                 out += translate_function(mod, name, fns)
+                if (mod, name) == ("tools", "xor"):
+                    # the same source once more, read as a big-endian host reads it (only `xor` consults the byte order)
+                    BIG_ENDIAN_HOST[0] = True
+                    try:
+                        be = translate_function(mod, name, fns)
+                    finally:
+                        BIG_ENDIAN_HOST[0] = False
+                    out += [ln.replace("def xor ", "def xor_bigendian ", 1) if ln.startswith("def xor ") else ln for ln in be]
             except Exception as e:  # noqa: BLE001  (Unsupported, or a construct the translator trips over)
                 if not isinstance(e, Unsupported):
                     e = Unsupported(f"the translator could not read it ({type(e).__name__}: {e})")
@@ -989,6 +1000,8 @@ def translate(repo):
                 # be proved about; its own theorem and those of its callers fail, nothing else does
                 failures[f"{mod}.{name}"] = str(e)
                 out += placeholder(mod, name, fns.get(name))
+                if (mod, name) == ("tools", "xor"):
+                    out += [ln.replace("def xor ", "def xor_bigendian ", 1) for ln in placeholder(mod, name, fns.get(name))]
         out.append(f"end {mod}")
         out.append("")
     out.append("end Pyemv.Gen")
